@@ -73,6 +73,8 @@ def chains(cases, rng, count):
     No spec expectation (differential only); the deviation signature of a row is the union of the members'."""
     pool = [c for c in cases if c["compiled"] == 1 and c["e"]["k"] in ("cmp", "btw")]
     out = []
+    if not pool:
+        return out
     for _ in range(count):
         n = rng.choice([2, 5, 9, 11, 12, 12, 13, 14, 20])
         ms = [rng.choice(pool) for _ in range(n)]
